@@ -132,6 +132,21 @@ pub fn battery(s: &McState) -> String {
             mtf
         )
     ));
+    // a per-process predicate that matches one entry for two processes (sender and receiver of a delivery): every listed
+    // process is counted on its own
+    let involved = |e: &LogEntry, q: &String| matches!(e, LogEntry::McMessageReceived { src, dst, .. } if src == q || dst == q);
+    let mi = pnames
+        .iter()
+        .map(|q| s.trace.iter().filter(|e| involved(e, q)).count() as u64)
+        .max()
+        .unwrap_or(0);
+    items.push(format!(
+        "pei={}",
+        tri(
+            &mut |x| b(prunes::events_limit_per_proc(involved, pnames.clone(), x as usize)(s).is_some()),
+            mi
+        )
+    ));
     let rev: Vec<String> = pnames.iter().rev().cloned().collect();
     items.push(format!(
         "ppp={}{}",
